@@ -211,3 +211,77 @@ Theorem C01_setdef_oer_roundtrip_in_stream : forall t v bs rest,
   coer_dec t (bs ++ rest) = Some (fill_dflt t v, rest).
 Proof. exact coer_roundtrip_in_stream. Qed.
 Print Assumptions C01_setdef_oer_roundtrip_in_stream.
+(* ---- PrimB: restricted character strings (Rt/PrimB.v) ----
+   IA5String, VisibleString, PrintableString, NumericString, BMPString, UniversalString (known-multiplier types, with no
+   constraint / SIZE / extensible SIZE / FROM), UTF8String and the other string types, at top level, under EXPLICIT tags, as a
+   mandatory or OPTIONAL member of a SEQUENCE next to members of the base algebra, and as the element of a SEQUENCE OF.
+   Unaligned PER is modelled on its own (coq/Rt/PrimB.v: both readings), DER / BER and OER by translation to the base algebra.
+   [wf_leaf std l] (coq/Rt/PrimBProofs.v): for the (constraint, width) pair the writer uses inside the root and - when the SIZE is
+   extensible and the pair is reachable - outside it, the character goes out as it is (as_is), or through a canonical map of
+   at most 16 bits that hold every index, or as an offset from the lower bound in bits that hold every offset. *)
+From A1 Require Import Rt.Uper Rt.UperProofs Rt.Oer Rt.OerProofs Rt.PrimB Rt.PrimBProofs.
+
+(* the PER reader of a string leaf returns the octets of the value and leaves exactly what followed the encoding *)
+Theorem C01_primb_uper_leaf_rt : forall std l bs bits rest,
+  wf_leaf std l = true -> bytes_ok bs -> uper_leaf std l bs = Some bits ->
+  uper_leaf_dec std l (bits ++ rest) = Some (bs, rest).
+Proof. exact uper_leaf_rt. Qed.
+Print Assumptions C01_primb_uper_leaf_rt.
+
+Theorem C01_primb_pb_uper_roundtrip_in_stream : forall std t v bits rest,
+  wf_sty_uper std t = true -> wt_sty_uper std t v = true -> pb_uper std t v = Some bits ->
+  pb_uper_dec std t (bits ++ rest) = Some (v, rest).
+Proof. exact pb_uper_roundtrip_in_stream. Qed.
+Print Assumptions C01_primb_pb_uper_roundtrip_in_stream.
+
+(* complete encodings: the value comes back and exactly the octets produced (at least one) are consumed *)
+Theorem C01_primb_pb_uper_decode_roundtrip : forall std t v bytes,
+  wf_sty_uper std t = true -> wt_sty_uper std t v = true -> pb_uper_encode std t v = Some bytes ->
+  pb_uper_decode std t bytes = Some (v, zlen bytes) /\ 1 <= zlen bytes.
+Proof. exact pb_uper_decode_roundtrip. Qed.
+Print Assumptions C01_primb_pb_uper_decode_roundtrip.
+
+Theorem C01_primb_pb_der_roundtrip_in_stream : forall t v bs rest,
+  DerProofs.wf_ty (der_ty t) = true -> DerProofs.wt (der_ty t) v = true -> pb_der t v = Some bs ->
+  zlen bs <= rssize_max -> pb_ber_dec t (bs ++ rest) = Some (v, rest).
+Proof. exact pb_der_roundtrip_in_stream. Qed.
+Print Assumptions C01_primb_pb_der_roundtrip_in_stream.
+
+Theorem C01_primb_pb_der_roundtrip : forall t v bs,
+  DerProofs.wf_ty (der_ty t) = true -> DerProofs.wt (der_ty t) v = true -> pb_der t v = Some bs ->
+  zlen bs <= rssize_max -> pb_ber_decode t bs = Some (v, zlen bs).
+Proof. exact pb_der_roundtrip. Qed.
+Print Assumptions C01_primb_pb_der_roundtrip.
+
+Theorem C01_primb_pb_oer_roundtrip_in_stream : forall t v bs rest,
+  OerProofs.wf_ty_oer (oer_ty t) = true -> OerProofs.wt_oer (oer_ty t) v = true -> pb_oer t v = Some bs ->
+  pb_oer_dec t (bs ++ rest) = Some (v, rest).
+Proof. exact pb_oer_roundtrip_in_stream. Qed.
+Print Assumptions C01_primb_pb_oer_roundtrip_in_stream.
+
+(* the condition is needed: in the C's reading a NumericString without any constraint gets (32..57) in 4 bits and no
+   character map; '5' - 32 = 21 is truncated to 5 and read back as '%' (finding C01-uper-numericstring-range) *)
+Theorem C01_primb_uper_leaf_numeric_plain_refuted : exists l bs bits,
+  wf_leaf false l = false /\ uper_leaf false l bs = Some bits /\ bytes_ok bs /\
+  uper_leaf_dec false l bits <> Some (bs, []).
+Proof. exact uper_leaf_numeric_plain_refuted. Qed.
+Print Assumptions C01_primb_uper_leaf_numeric_plain_refuted.
+
+(* ... and it is the only type of the family without a permitted-alphabet constraint that violates it *)
+Theorem C01_primb_wf_leaf_no_from : forall std tg k sz,
+  std = true \/ k <> KNumeric \/ sz <> None -> wf_leaf std (Str tg k sz None) = true.
+Proof. exact wf_leaf_no_from. Qed.
+Print Assumptions C01_primb_wf_leaf_no_from.
+
+(* non-vacuity: SEQUENCE { a IA5String (SIZE(1..5,...)), b [0] EXPLICIT NumericString (FROM("0".."9")) OPTIONAL, c BOOLEAN }
+   with { a "Hi", b "42", c TRUE } meets the hypotheses in both readings, and its encoding is read back *)
+Theorem C01_primb_example :
+  wf_sty_uper false ex_sty = true /\ wt_sty_uper false ex_sty ex_sval = true /\
+  pb_uper_encode false ex_sty ex_sval = Some [140; 141; 32; 72; 80] /\
+  pb_uper_decode false ex_sty [140; 141; 32; 72; 80] = Some (ex_sval, 5).
+Proof.
+  split; [exact (proj1 ex_s_meets_hypotheses)|].
+  split; [exact (proj1 (proj2 (proj2 ex_s_meets_hypotheses)))|].
+  split; [exact (proj2 (proj2 ex_s_uper))|exact (proj2 ex_s_uper_decodes)].
+Qed.
+Print Assumptions C01_primb_example.
